@@ -549,6 +549,28 @@ pub fn build(kind: Kind, raw: i128, choices: &[u32], neg: u32) -> Built {
     let n_tok = cut.unwrap_or(ctoks.len());
     let mut last_value_full_width = false;
     let mut lookalike_done = false;
+    // A day outside its month together with redundant fields: half of the time the day-of-year
+    // and the weekday are spelled for the *overflowed* pseudo-date (days before the month + the
+    // bad day), so that every redundant field "agrees" with the impossible day; the text still
+    // denotes no date.
+    let bad_day: Option<u32> = match perturb {
+        Perturb::Day0 => Some(0),
+        Perturb::Day32 => Some([32u32, 99, 40][ch.pick(3)]),
+        Perturb::DayPastMonthEnd if has_date && p.month >= 1 => Some(month_len(p.year as i32, p.month) + 1),
+        _ => None,
+    };
+    let (mut doy_spell, mut wd_spell) = (p.doy, p.wd);
+    if let Some(bd) = bad_day {
+        if has_date && ch.flag(1, 2) {
+            let shift = bd as i64 - p.day as i64;
+            let d2 = p.doy as i64 + shift;
+            if (1..=999).contains(&d2) {
+                doy_spell = d2 as u32;
+                wd_spell = ((p.wd as i64 - 1 + shift).rem_euclid(7) + 1) as u32;
+                tags.push("redundant-fields-follow-the-impossible-day");
+            }
+        }
+    }
     for i in 0..n_tok {
         let (t, _) = &ctoks[i];
         let is_dup_tail = dup_text.is_some() && i + 2 >= ctoks.len();
@@ -624,11 +646,7 @@ pub fn build(kind: Kind, raw: i128, choices: &[u32], neg: u32) -> Built {
             }
             Tok::DD => match perturb {
                 Perturb::Day0 => piece.push_str(if next_is_digit { "00" } else { ["0", "00"][ch.pick(2)] }),
-                Perturb::Day32 => piece.push_str(["32", "99", "40"][ch.pick(3)]),
-                Perturb::DayPastMonthEnd => {
-                    let d = month_len(p.year as i32, p.month) + 1;
-                    piece.push_str(&format!("{d:02}"));
-                }
+                Perturb::Day32 | Perturb::DayPastMonthEnd => piece.push_str(&format!("{:02}", bad_day.unwrap_or(32))),
                 _ => numeric(p.day as u64, 2, true, &mut ch, &mut tags, &mut piece, &mut last_value_full_width),
             },
             Tok::DDD => match perturb {
@@ -639,19 +657,19 @@ pub fn build(kind: Kind, raw: i128, choices: &[u32], neg: u32) -> Built {
                     let d = if p.doy > 1 { p.doy - 1 } else { p.doy + 1 };
                     piece.push_str(&format!("{d:03}"));
                 }
-                _ => numeric(p.doy as u64, 3, true, &mut ch, &mut tags, &mut piece, &mut last_value_full_width),
+                _ => numeric(doy_spell as u64, 3, true, &mut ch, &mut tags, &mut piece, &mut last_value_full_width),
             },
             Tok::D => {
                 let d = match perturb {
                     Perturb::WeekdayDigitBad => [0u32, 8, 9][ch.pick(3)],
                     Perturb::WeekdayWrong => p.wd % 7 + 1,
-                    _ => p.wd,
+                    _ => wd_spell,
                 };
                 piece.push_str(&d.to_string());
                 tags.push("weekday-field");
             }
             Tok::Day(_) | Tok::Dy(_) => {
-                let w = if perturb == Perturb::WeekdayWrong { (p.wd as usize + ch.pick(6)) % 7 + 1 } else { p.wd as usize };
+                let w = if perturb == Perturb::WeekdayWrong { (p.wd as usize + ch.pick(6)) % 7 + 1 } else { wd_spell as usize };
                 let w = if perturb == Perturb::WeekdayWrong && w == p.wd as usize { p.wd as usize % 7 + 1 } else { w };
                 let name = DAY_NAMES[w - 1];
                 let s = if matches!(t, Tok::Dy(_)) { &name[..3] } else { name };
